@@ -125,6 +125,7 @@ def _axis_of(c: ast.Call) -> Optional[int]:
 
 
 def run(ctx: Ctx):
+    ctx.attempt("R8.3", lambda: paircount_fixture(ctx))
     cls = ctx.repo.cls("Chi2Calculator")
     init = ctx.func("Chi2Calculator.__init__")
     call = ctx.func("Chi2Calculator.__call__")
@@ -255,6 +256,7 @@ def run(ctx: Ctx):
             aenv[ch] = _subst(_subst(lst[0][0].value, lenv), aenv)
     aenv = {k: _subst(v, aenv) for k, v in aenv.items()}
     if mask_name is None:
+        ctx.attempt("R8.3", lambda: count_dispatch(ctx, init, p_fixed, p_restr, sel_attr))
         return
     # the two cached slices of the fixed array, whatever the attributes are called
     vals_ = {k_: norm(v_) for k_, v_ in aenv.items() if k_.startswith("self.")}
@@ -446,3 +448,83 @@ def run(ctx: Ctx):
 
     ctx.attempt("R8.2", lambda: analyse(sel_only or "_chi2_molecules_only_restrains", True, False, "", "set(R2)"))
     ctx.floor("R8.2", sum(1 for o in ctx.obligations if o.rule == "R8.2"), 8, "closed-form components matched")
+
+
+
+def pair_count_tests(init_node: ast.AST, p_fixed: str, p_restr: str):
+    """Tests in the constructor that recognise "every fixed atom is restrained" by comparing the number of fixed atoms with
+    the number of restraint *pairs* (len of the restraint list or of one of its columns, not of a set / np.unique of it):
+    a list that names one fixed atom twice has as many pairs as atoms while another atom is left unrestrained."""
+    env: Dict[str, ast.AST] = {}
+    count: Dict[str, int] = {}
+    for st in walk_no_nested(init_node):
+        if isinstance(st, ast.Assign):
+            for t in st.targets:
+                for n in ast.walk(t):
+                    if isinstance(n, ast.Name) and isinstance(n.ctx, ast.Store):
+                        count[n.id] = count.get(n.id, 0) + 1
+            if len(st.targets) == 1 and isinstance(st.targets[0], ast.Name):
+                env[st.targets[0].id] = st.value
+            elif len(st.targets) == 1 and isinstance(st.targets[0], ast.Attribute) and attr_chain(st.targets[0]):
+                ch_ = attr_chain(st.targets[0])
+                count[ch_] = count.get(ch_, 0) + 1
+                env[ch_] = st.value
+            elif len(st.targets) == 1 and isinstance(st.targets[0], ast.Tuple):
+                for i_, e_ in enumerate(st.targets[0].elts):
+                    if isinstance(e_, ast.Name):
+                        env[e_.id] = ast.Subscript(value=st.value, slice=ast.Constant(i_), ctx=ast.Load())
+    env = {k: v for k, v in env.items() if count.get(k) == 1 and k not in (p_fixed, p_restr)}
+
+    def expand(e, depth=5):
+        for _ in range(depth):
+            e2 = _subst(e, env)
+            if norm(e2) == norm(e):
+                break
+            e = e2
+        return e
+    DEDUP = {"set", "unique", "setdiff1d", "union1d", "intersect1d", "frozenset", "fromkeys", "count_nonzero", "sum", "any", "all"}
+    hits = []
+    for st in walk_no_nested(init_node):
+        if not isinstance(st, (ast.If, ast.IfExp)):
+            continue
+        t = expand(st.test)
+        lens = [c for c in ast.walk(t) if isinstance(c, ast.Call) and isinstance(c.func, ast.Name) and c.func.id == "len" and len(c.args) == 1]
+        fixed_len = [c for c in lens if norm(c.args[0]) == p_fixed]
+        pair_len = []
+        for c in lens:
+            a = c.args[0]
+            if not any(isinstance(n, ast.Name) and n.id == p_restr for n in ast.walk(a)):
+                continue
+            if any(isinstance(x, ast.Call) and call_name(x) in DEDUP for x in ast.walk(a)):
+                continue
+            pair_len.append(c)
+        if not (fixed_len and pair_len):
+            continue
+        # the two lengths meet in one comparison (directly or through a difference)
+        for cmp_ in ast.walk(t):
+            if isinstance(cmp_, ast.Compare):
+                inside = {id(x) for x in ast.walk(cmp_)}
+                if any(id(c) in inside for c in fixed_len) and any(id(c) in inside for c in pair_len):
+                    hits.append((st, cmp_))
+                    break
+    return hits
+
+
+def paircount_fixture(ctx: Ctx):
+    from ..fixtures import check_fixture
+    check_fixture(ctx, "R8.3", "paircount.py",
+                  lambda repo: sum(len(pair_count_tests(f_.node, "mol1", "restrictions")) for f_ in repo.funcs.values() if f_.name == "__init__"),
+                  expect_exact=2)
+
+
+def count_dispatch(ctx: Ctx, init: Func, p_fixed: str, p_restr: str, sel_attr):
+    hits = pair_count_tests(init.node, p_fixed, p_restr)
+    if hits:
+        st, c = hits[0]
+        ctx.ob("R8.3", init, st, False,
+               "the case 'every fixed atom is restrained' is recognised from the set of restrained atoms -- here `%s` compares the number "
+               "of fixed atoms with the number of restraint pairs: a restraint list naming one fixed atom twice has as many pairs as "
+               "atoms while another atom is unrestrained, and its nearest-neighbour term is then dropped" % norm(c)[:100], node=st)
+    else:
+        ctx.ob("R8.3", init, "case selection", True, "the constructor's case selection is not written over the mask of unrestrained atoms; "
+               "no test compares atom and pair counts; the cases are otherwise not decided on this tree", undecided=True, node=init.node)
